@@ -246,6 +246,7 @@ func (e *Exec) resetPath(it workItem) {
 	e.analyzers = nil
 	e.lastAnalyzer = nil
 	e.lastSwagger = nil
+	e.syncMaps = nil
 	e.swAnalyzer = nil
 	e.merge = nil
 	e.in = newInterner()
